@@ -12,8 +12,8 @@ Proof. vm_compute. reflexivity. Qed.
 
 (* ---------- the known class ---------- *)
 (* the tree of these events cannot tell what the reader said: an annotations attribute without
-   annotations, a LocalVariable(Type)Table without rows, or an at-most-once attribute that the
-   builder merges / overwrites occurring twice — exactly where the strict builder refuses *)
+   annotations, or an at-most-once attribute that the builder merges / overwrites occurring
+   twice — exactly where the strict builder refuses *)
 Definition replay_inexact (T : reader_tables) (AT : accept_tables) (t_full : option (list ev)) : bool :=
   match build true T AT t_full with Ok _ => false | Err => true end.
 
@@ -126,8 +126,9 @@ Definition w_hdr : bytes :=
 (* F20a: `class A` with a RuntimeVisibleAnnotations attribute that has no annotations *)
 Definition w_empty_annotations : cls := mkC w_hdr [] [] [AtPlain (mkP 7 2 [0;0])].
 
-(* F20b: `class A { void m() { return; } }` whose Code has a LocalVariableTable without rows;
-   visitor: everything, but of the Code only local_variable_type_table *)
+(* `class A { void m() { return; } }` whose Code has a LocalVariableTable without rows; visitor: everything, but of
+   the Code only local_variable_type_table.  This was the witness of finding F20b until reader and Code::accept were
+   given one rule for tables without rows; it is now an example of the replay theorem (Theory15.v, rowless_statement) *)
 Definition w_code_attrs : list pattr := [mkP 4 2 [0;0]].
 Definition w_rowless_locals : cls :=
   mkC w_hdr [] [mkM 1 5 6 [AtCode 3 (elen (code_body 1 1 [177] 0 [] w_code_attrs)) 1 1 [177] 0 [] w_code_attrs]] [].
@@ -164,12 +165,6 @@ Definition tree_of_cls (c : cls) : class_tree :=
 Theorem replay_empty_annotations_refuted : refutes w_empty_annotations (v_full tables).
 Proof.
   apply (refutes_by_weight _ _ (tree_of_cls w_empty_annotations)); try (vm_compute; reflexivity).
-  vm_compute. discriminate.
-Qed.
-
-Theorem replay_rowless_locals_refuted : refutes w_rowless_locals v_only_lvtt.
-Proof.
-  apply (refutes_by_weight _ _ (tree_of_cls w_rowless_locals)); try (vm_compute; reflexivity).
   vm_compute. discriminate.
 Qed.
 
